@@ -241,3 +241,27 @@ Fixpoint session_run (bang : str -> str -> str) (prev : str) (typed : list str) 
     | (None, p) => session_run bang p rest
     end
   end.
+
+(* ------------------------------------------------------------------ several shell processes, one database *)
+(** A shell process is either interactive (the lines typed at its prompt) or a
+    [-c history add LINE] process.  What a process appends to the table does NOT
+    depend on the rows already stored: Shell::new sets previous_cmd to the empty
+    string and history::init (which loads the stored lines into the line editor)
+    does not touch it, so the repeat rule only ever compares with a line recorded
+    by the SAME process.  [stored] is an argument precisely so that this
+    independence is a statement about the model. *)
+Inductive proc := Interactive (typed : list str) | AddCmd (line : str).
+
+Definition initial_previous_cmd (stored : list str) : str := [].
+
+Definition proc_records (bang : str -> str -> str) (stored : list str) (p : proc) : list str :=
+  match p with
+  | Interactive typed => session_run bang (initial_previous_cmd stored) typed
+  | AddCmd line => [trim line]
+  end.
+
+Fixpoint db_procs (bang : str -> str -> str) (stored : list str) (ps : list proc) : list str :=
+  match ps with
+  | [] => stored
+  | p :: r => db_procs bang (stored ++ proc_records bang stored p) r
+  end.
